@@ -10,6 +10,7 @@ def handle (line : String) : String :=
       let op ← Drv.fldStr j "op"
       match op with
       | "hash" => Drv.opHash j
+      | "auth" => Drv.opAuth j
       | "argctx" => Drv.opArgCtx j
       | "leafsig" => Drv.opLeafSig j
       | _ => .error s!"unknown op {op}"
